@@ -351,7 +351,7 @@ impl<'a> Rd<'a> {
         let s = core::str::from_utf8(s).map_err(|_| DecErr::BadUtf8(what))?;
         // [MQTT-1.5.4-2] no U+0000
         if s.contains('\0') {
-            return Err(DecErr::BadUtf8(what));
+            return Err(DecErr::Other(format!("U+0000 in {what}")));
         }
         Ok(s.to_string())
     }
